@@ -82,6 +82,34 @@ Definition multiprocess_eval (redundant : bool) (perm : list nat) (fresh : nat)
 
 End Eval.
 
+(* ---- a fitness function that may RAISE ----
+   [faulty g]: a fitness call on an individual with genome g raises (inside the optimizer or in the final
+   evaluation - an oracle of the genome).  Python propagates the exception: _serial_eval stops at the first
+   due faulty individual; _multiprocess_eval re-raises it from res.get() when it reaches that job.  Either
+   way the phase does not return; [None] models that. *)
+Section EvalPartial.
+Variable G : Type.
+Variable F : Type.
+Variable fit : G -> F.
+Variable opt : G -> G.
+Variable k : G -> nat.
+Variable faulty : G -> bool.
+Definition due_faulty (redundant : bool) (i : indiv G F) : bool := due G F redundant i && faulty (genome G F i).
+Fixpoint serial_eval_p (redundant : bool) (c : counter) (pop : list (indiv G F)) : option (counter * list (indiv G F)) :=
+  match pop with
+  | [] => Some (c, [])
+  | i :: r =>
+    if due G F redundant i then
+      if faulty (genome G F i) then None
+      else let '(c1, i') := fitness_call G F fit opt k c i in
+           match serial_eval_p redundant c1 r with Some (c2, r') => Some (c2, i' :: r') | None => None end
+    else match serial_eval_p redundant c r with Some (c2, r') => Some (c2, i :: r') | None => None end
+  end.
+Definition multiprocess_eval_p (redundant : bool) (perm : list nat) (fresh : nat) (c : counter) (pop : list (indiv G F))
+  : option (counter * list (indiv G F) * nat) :=
+  if existsb (due_faulty redundant) pop then None
+  else Some (multiprocess_eval G F fit opt k redundant perm fresh c pop).
+End EvalPartial.
 (* ---- islands and archipelagos: each island owns its own fitness-function object ---- *)
 Definition island_count (c : counter) : nat := count c.
 Definition archipelago_count (cs : list counter) : nat := fold_right (fun c a => count c + a) 0 cs.
